@@ -108,7 +108,10 @@ func (t *tr) leanType(ty types.Type) string {
 	if k == kErr && t.f != nil && t.f.stateful {
 		return "Nat"
 	}
-	if k == kRec || k == kRecList || k == kSet || k == kAbs || k == kOpt {
+	if k == kErr && t.f != nil && !t.f.stateful {
+		return "Bool" // a stored error (a struct field): only whether it is non-nil
+	}
+	if k == kRec || k == kRecList || k == kSet || k == kAbs || k == kOpt || k == kMapList {
 		return leanTypeStatic(ty)
 	}
 	if k == kBad {
@@ -279,9 +282,13 @@ type fctx struct {
 	closureLits map[types.Object]*ast.FuncLit // all local procedures of the definition (static)
 	closures map[types.Object]*ast.FuncLit // local procedures `f := func(…) {…}` (no results): calls are inlined
 	everAssigned map[types.Object]bool // variables assigned anywhere in the function body (after their definition)
+	nonNil   []string // field paths of error type known to be non-nil here (inside `if p != nil { … }`)
+	nilTypes map[*ast.Ident]types.Type // the type each untyped nil is converted to
 	consumesParams bool
 	consumed map[types.Object]bool   // abstract objects behind pointers handed to a translated callee (which may change them): no read before the next assignment
 	errBool  map[types.Object]bool   // error variables kept as "is an error" Booleans (Option mode)
+	fnName   string
+	readops  map[string]opq          // -read callees
 	stepops  map[string]opq          // printed callee X.m -> function (object, args…) ↦ results… × object
 	mutops   map[string]opq          // printed callee X.m -> function (object, args…) ↦ object: X.m(args) updates the abstract object X
 	inouts   map[string]opq          // printed callee -> function (window content, args…) ↦ Option (new window content = returned slice)
@@ -327,7 +334,7 @@ func newFctx(name string, opaque []opq) *fctx {
 	f := &fctx{name: name, env: map[types.Object]string{}, pvars: map[string]*types.Var{}, count: map[string]int{},
 		alias: map[types.Object][]types.Object{}, opaque: map[string]opq{}, errVars: map[types.Object]bool{},
 		blockops: map[string]opq{}, abstract: map[string]bool{}, objRoots: map[types.Object][]*types.Var{},
-		applyops: map[string]opq{}, fillops: map[string]opq{}, inouts: map[string]opq{}, mutops: map[string]opq{}, stepops: map[string]opq{}, errBool: map[types.Object]bool{}, consumed: map[types.Object]bool{}, closures: map[types.Object]*ast.FuncLit{}, closureLits: map[types.Object]*ast.FuncLit{}, ctors: map[string]int{}, views: map[types.Object]*view{},
+		applyops: map[string]opq{}, fillops: map[string]opq{}, inouts: map[string]opq{}, mutops: map[string]opq{}, stepops: map[string]opq{}, readops: map[string]opq{}, errBool: map[types.Object]bool{}, consumed: map[types.Object]bool{}, nilTypes: map[*ast.Ident]types.Type{}, closures: map[types.Object]*ast.FuncLit{}, closureLits: map[types.Object]*ast.FuncLit{}, ctors: map[string]int{}, views: map[types.Object]*view{},
 		viewRoot: map[types.Object]types.Object{}, viewVars: map[types.Object][2]*types.Var{},
 		externRead: map[string]bool{}, externValue: map[string]bool{}, typeOverride: map[types.Object]string{},
 		order: map[types.Object]int{}, rootCanon: map[types.Object]string{}, goParams: map[string]string{}, legacyOf: map[string]string{}}
@@ -447,7 +454,87 @@ func (t *tr) objOf(id *ast.Ident) types.Object {
 	return t.u.info.Defs[id]
 }
 
-func (t *tr) typeOf(e ast.Expr) types.Type { return t.u.info.TypeOf(e) }
+func (t *tr) typeOf(e ast.Expr) types.Type {
+	if id, ok := e.(*ast.Ident); ok && id.Name == "nil" && t.f != nil {
+		if ty, ok := t.f.nilTypes[id]; ok {
+			return ty
+		}
+	}
+	return t.u.info.TypeOf(e)
+}
+
+// scanNils: the type an untyped `nil` is converted to by its context (call argument, struct field, result, assignment)
+func (t *tr) scanNils(body ast.Node, results *types.Tuple) {
+	isNil := func(e ast.Expr) (*ast.Ident, bool) {
+		id, ok := e.(*ast.Ident)
+		return id, ok && id.Name == "nil"
+	}
+	ast.Inspect(body, func(nd ast.Node) bool {
+		switch x := nd.(type) {
+		case *ast.CallExpr:
+			sig, _ := t.u.info.TypeOf(x.Fun).(*types.Signature)
+			if sig == nil {
+				return true
+			}
+			for i, a := range x.Args {
+				if id, ok := isNil(a); ok {
+					pi := i
+					if pi >= sig.Params().Len() {
+						pi = sig.Params().Len() - 1
+					}
+					if pi >= 0 {
+						pt := sig.Params().At(pi).Type()
+						if sig.Variadic() && pi == sig.Params().Len()-1 && !x.Ellipsis.IsValid() {
+							if sl, ok := pt.(*types.Slice); ok {
+								pt = sl.Elem()
+							}
+						}
+						t.f.nilTypes[id] = pt
+					}
+				}
+			}
+		case *ast.CompositeLit:
+			st, _ := t.u.info.TypeOf(x).Underlying().(*types.Struct)
+			if st == nil {
+				return true
+			}
+			for i, el := range x.Elts {
+				if kv, ok := el.(*ast.KeyValueExpr); ok {
+					if id, ok := isNil(kv.Value); ok {
+						if kid, ok := kv.Key.(*ast.Ident); ok {
+							for j := 0; j < st.NumFields(); j++ {
+								if st.Field(j).Name() == kid.Name {
+									t.f.nilTypes[id] = st.Field(j).Type()
+								}
+							}
+						}
+					}
+				} else if id, ok := isNil(el); ok && i < st.NumFields() {
+					t.f.nilTypes[id] = st.Field(i).Type()
+				}
+			}
+		case *ast.ReturnStmt:
+			if results != nil && len(x.Results) == results.Len() {
+				for i, r := range x.Results {
+					if id, ok := isNil(r); ok {
+						t.f.nilTypes[id] = results.At(i).Type()
+					}
+				}
+			}
+		case *ast.AssignStmt:
+			if len(x.Lhs) == len(x.Rhs) {
+				for i, r := range x.Rhs {
+					if id, ok := isNil(r); ok {
+						if lt := t.u.info.TypeOf(x.Lhs[i]); lt != nil {
+							t.f.nilTypes[id] = lt
+						}
+					}
+				}
+			}
+		}
+		return true
+	})
+}
 
 func (t *tr) kindOf(e ast.Expr) (kind, int) { return classify(t.typeOf(e)) }
 
@@ -565,6 +652,17 @@ func (t *tr) expr(e ast.Expr) string {
 				return fmt.Sprintf("(%d : Nat)", code)
 			}
 		}
+		if sel, ok := t.u.info.Selections[x]; ok && sel.Kind() == types.FieldVal {
+			if t.absLocalBase(x.X) {
+				if kb, _ := t.kindOf(x.X); kb == kAbs {
+					an, _ := absTypeOf(t.typeOf(x.X))
+					if t.f.hasBinder(an + "_" + x.Sel.Name) {
+						// a field of an abstract object that a call returned: an abstract projection
+						return "(" + an + "_" + leanName(x.Sel.Name) + " " + t.expr(x.X) + ")"
+					}
+				}
+			}
+		}
 		return t.fail(e, "selector %s", t.src(x))
 	case *ast.BinaryExpr:
 		if k, _ := t.kindOf(x); k == kBool {
@@ -576,6 +674,15 @@ func (t *tr) expr(e ast.Expr) string {
 			return t.expr(cl) // &T{…}: the struct value (tuple of its supported fields)
 		}
 		if x.Op == token.AND {
+			if kk, _ := t.kindOf(x); kk == kAbs {
+				if ko, _ := t.kindOf(x.X); ko == kAbs {
+					a1, _ := absTypeOf(t.typeOf(x))
+					a2, _ := absTypeOf(t.typeOf(x.X))
+					if a1 == a2 {
+						return t.expr(x.X) // &obj of an abstract object: the same abstract object
+					}
+				}
+			}
 			if kk, _ := t.kindOf(x); kk == kOpt {
 				// &v of a basic variable that is never assigned again: a pointer to its (constant) value
 				id, ok := x.X.(*ast.Ident)
@@ -596,6 +703,15 @@ func (t *tr) expr(e ast.Expr) string {
 		}
 		return t.fail(e, "unary operator %s on %s", x.Op, t.typeOf(x))
 	case *ast.StarExpr:
+		if c, ok := x.X.(*ast.CallExpr); ok && len(c.Args) == 1 {
+			if fid, ok := c.Fun.(*ast.Ident); ok && fid.Name == "new" && t.objOf(fid) != nil && t.objOf(fid).Pkg() == nil {
+				if tv, ok := t.u.info.Types[c.Args[0]]; ok && tv.IsType() {
+					if tp, isTP := tv.Type.(*types.TypeParam); isTP && t.f.hasBinder(tp.Obj().Name()+"_zero") {
+						return tp.Obj().Name() + "_zero" // *new(P): the zero value of the type parameter
+					}
+				}
+			}
+		}
 		if kk, _ := t.kindOf(x.X); kk == kOpt {
 			// *p: Go panics on nil (poison: the zero value)
 			return "((" + t.expr(x.X) + ").getD default)"
@@ -607,7 +723,18 @@ func (t *tr) expr(e ast.Expr) string {
 		if k, _ := t.kindOf(x.X); k == kSet {
 			return fmt.Sprintf("(decide (%s ∈ %s))", t.expr(x.Index), t.expr(x.X))
 		}
+		if k, _ := t.kindOf(x.X); k == kMapList {
+			return fmt.Sprintf("(%s %s)", t.expr(x.X), t.expr(x.Index)) // missing key: the map function gives []
+		}
 		if k, _ := t.kindOf(x.X); k == kRecList {
+			if el, _ := listElem(t.typeOf(x.X)); el != nil {
+				if tp, isTP := el.(*types.TypeParam); isTP {
+					return fmt.Sprintf("(GoSem.listAtD %s %s %s_zero)", t.expr(x.X), t.intExpr(x.Index), tp.Obj().Name())
+				}
+				if _, isAbs := absTypeOf(el); isAbs {
+					return t.fail(e, "index into a list of abstract objects (no zero value)")
+				}
+			}
 			return fmt.Sprintf("(GoSem.listAt %s %s)", t.expr(x.X), t.intExpr(x.Index))
 		}
 		if k, _ := t.kindOf(x.X); k != kBytes {
@@ -631,6 +758,59 @@ func (t *tr) expr(e ast.Expr) string {
 		}
 		return fmt.Sprintf("(GoSem.slice %s %s %s)", base, lo, hi)
 	case *ast.CompositeLit:
+		if k, _ := t.kindOf(x); k == kAbs {
+			an, _ := absTypeOf(t.typeOf(x))
+			switch u := t.typeOf(x).Underlying().(type) {
+			case *types.Map:
+				if len(x.Elts) == 0 && t.f.hasBinder(an+"_empty") {
+					return an + "_empty"
+				}
+			case *types.Struct:
+				if len(x.Elts) == u.NumFields() && t.f.hasBinder(an+"_mk") {
+					vals := make([]string, u.NumFields())
+					for i, el := range x.Elts {
+						if kv, ok := el.(*ast.KeyValueExpr); ok {
+							kid, _ := kv.Key.(*ast.Ident)
+							for j := 0; j < u.NumFields(); j++ {
+								if kid != nil && u.Field(j).Name() == kid.Name {
+									vals[j] = t.expr(kv.Value)
+								}
+							}
+						} else {
+							vals[i] = t.expr(el)
+						}
+					}
+					for _, v := range vals {
+						if v == "" {
+							return t.fail(e, "composite literal of the abstract type %s: every field must be given once", an)
+						}
+					}
+					return "(" + an + "_mk " + strings.Join(vals, " ") + ")"
+				}
+			}
+			return t.fail(e, "composite literal of the abstract type %s", an)
+		}
+		if ri := recordOf(types.NewPointer(t.typeOf(x))); ri != nil && len(recordSpecs) > 0 {
+			// &T{…} of a record type: the listed fields that are given (the others keep their zero value; fields not listed
+			// with -record are not part of the record)
+			st, _ := t.typeOf(x).Underlying().(*types.Struct)
+			parts := []string{"isNil := false"}
+			for i, el := range x.Elts {
+				var name string
+				var val ast.Expr
+				if kv, ok := el.(*ast.KeyValueExpr); ok {
+					if kid, ok := kv.Key.(*ast.Ident); ok {
+						name, val = kid.Name, kv.Value
+					}
+				} else if st != nil && i < st.NumFields() {
+					name, val = st.Field(i).Name(), el
+				}
+				if _, listed := ri.fieldTy[name]; listed && val != nil {
+					parts = append(parts, leanName(name)+" := "+t.expr(val))
+				}
+			}
+			return "({ (default : " + ri.lean + ") with " + strings.Join(parts, ", ") + " } : " + ri.lean + ")"
+		}
 		if k, _ := t.kindOf(x); k != kBytes {
 			if st, ok := t.typeOf(x).Underlying().(*types.Struct); ok && st.NumFields() == 0 {
 				return "()"
@@ -760,6 +940,15 @@ func (t *tr) cond(e ast.Expr) string {
 					ev = x.X
 				} else if isNilId(x.X) {
 					ev = x.Y
+				}
+				if se, ok := ev.(*ast.SelectorExpr); ok && t.isFieldPath(se) {
+					if ke, _ := t.kindOf(se); ke == kErr {
+						v := t.expr(se)
+						if x.Op == token.NEQ {
+							return "(" + v + " = true)"
+						}
+						return "(" + v + " = false)"
+					}
 				}
 				if id, ok := ev.(*ast.Ident); ok && t.f.errBool[t.objOf(id)] {
 					if x.Op == token.NEQ {
@@ -1089,6 +1278,9 @@ func (t *tr) call(c *ast.CallExpr) string {
 			}
 		}
 		for _, a := range c.Args {
+			if ty := t.typeOf(a); ty != nil && emptyStruct(ty) {
+				continue // a token: no information
+			}
 			args = append(args, t.expr(a))
 		}
 		if len(args) == 0 {
@@ -1122,6 +1314,13 @@ func (t *tr) call(c *ast.CallExpr) string {
 				}
 				return "(GoSem.makeBytes " + t.intExpr(c.Args[1]) + ")"
 			case "append":
+				if k, _ := classify(t.typeOf(c)); k == kRecList && !c.Ellipsis.IsValid() {
+					var els []string
+					for _, a := range c.Args[1:] {
+						els = append(els, t.expr(a))
+					}
+					return "(" + t.expr(c.Args[0]) + " ++ [" + strings.Join(els, ", ") + "])"
+				}
 				if k, _ := classify(t.typeOf(c)); k != kBytes {
 					return t.fail(c, "append on %s", t.typeOf(c))
 				}
